@@ -139,6 +139,16 @@ func (fr *FileReader) readNextBlock() (*Block, error) {
 	if err := blockHeader.Deserialize(headerBuf); err != nil {
 		return nil, err
 	}
+	// Never allocate more than the file holds: a damaged or forged size field (up to 4 GiB)
+	// must not make the server allocate gigabytes for a tiny file. A block that claims more
+	// bytes than are left is, like a short body, the (torn) end of the file.
+	info, err := fr.file.Stat()
+	if err != nil {
+		return nil, err
+	}
+	if int64(blockHeader.CompressedSize) > info.Size()-offset-BlockHeaderSize {
+		return nil, io.EOF
+	}
 	// Read compressed data
 	compressedData := make([]byte, blockHeader.CompressedSize)
 	if _, err := io.ReadFull(fr.file, compressedData); err != nil {
